@@ -32,17 +32,14 @@ def geometry(ctx):
         except Exception as e:
             dis.append({"kind": "elaboration", "k": k, "what": "compute_m_n raised %r" % (e,)})
             continue
-        reqs.append("mn %d" % k); want.append("%d %d" % (m, n)); what.append(("compute_m_n", k))
+        reqs.append("mn %d" % k); want.append("%d %d" % (m, n)); what.append(("compute_m_n", (k,)))
         ns.add(n)
-        # independent reference for the search/oracle side
-        if (m, n) != L.ref_m_n(k):
-            dis.append({"kind": "monitor", "k": k, "what": "compute_m_n(%d) = %r, Hamming bound needs %r" % (k, (m, n), L.ref_m_n(k))})
     ns |= set(range(1, 65))
     ncover = 0
     for n in sorted(ns):
         sp = E.compute_syndrome_positions(n)
-        reqs.append("synpos %d" % n); want.append(_fmt(sp)); what.append(("compute_syndrome_positions", n))
-        reqs.append("datapos %d" % n); want.append(_fmt(E.compute_data_positions(n))); what.append(("compute_data_positions", n))
+        reqs.append("synpos %d" % n); want.append(_fmt(sp)); what.append(("compute_syndrome_positions", (n,)))
+        reqs.append("datapos %d" % n); want.append(_fmt(E.compute_data_positions(n))); what.append(("compute_data_positions", (n,)))
         ps = [2 ** i for i in range(len(sp))]
         if n <= 40:
             ps = list(range(1, n + 2))           # every stride, not only the powers of two the callers use
@@ -68,21 +65,34 @@ def geometry(ctx):
     return dis
 
 
-def netlist_jobs(tier):
+def netlist_jobs(tier, rng=None):
     quick = tier == "quick"
     J = []
+    # every supported width 1..128 is in the grid of the thorough tier; the quick tier draws 4 of the
+    # remaining widths from the seed
+    others = [k for k in range(9, 129) if k not in LARGE_KS]
+    if quick:
+        others = sorted(rng.sample(others, 4)) if rng is not None else []
+    for k in others:
+        J.append((L.job_large, (k, 1 if quick else 2, 40 if quick else 60), {"garbage": 8, "fixed": False, "selfcheck": False}))
     for k in range(1, (6 if quick else 8) + 1):
         J.append((L.job_small, (k,), {}))
     for k in LARGE_KS:
         if quick:
-            J.append((L.job_large, (k, 3, 150 if k >= 100 else 300), {}))
+            J.append((L.job_large, (k, 3, 150 if k >= 100 else 300), {"selfcheck": k < 100}))
         else:
             # several jobs per width keep the pool balanced (k=128: ~9.3k pairs per data word)
             J.append((L.job_large, (k, 1, None), {"garbage": 64, "fixed": False}))
             J.append((L.job_large, (k, 1, None), {"garbage": 64, "fixed": False}))
-            J.append((L.job_large, (k, 2, None), {"garbage": 0, "fixed": True}))
-    # largest first
-    J.sort(key=lambda j: -j[1][0] if j[0] is L.job_large else 0)
+            J.append((L.job_large, (k, 1, None), {"garbage": 0, "fixed": "zero"}))
+            J.append((L.job_large, (k, 1, None), {"garbage": 0, "fixed": "ones"}))
+    # most expensive first (cost ~ cases x width)
+    def cost(j):
+        if j[0] is not L.job_large:
+            return 0
+        k, words, pairs = j[1]
+        return -(k * words * (k + (k * k // 2 if pairs is None else pairs)))
+    J.sort(key=cost)
     return J
 
 
@@ -100,46 +110,30 @@ def merge(ctx, results):
     return dis
 
 
-def run_corpus(ctx):
-    """corpus/C18/*.json: {"k", "data", "flips", "enable"} cases, run on the real code (oracle) and on the model."""
-    dis = []
-    files = sorted(glob.glob(os.path.join(CORPUS, "*.json")))
-    cache = {}
-    n_cases = 0
-    for f in files:
+def corpus_cases():
+    cases = []
+    for f in sorted(glob.glob(os.path.join(CORPUS, "*.json"))):
         for c in json.load(open(f)).get("cases", []):
-            k, d, flips, en = c["k"], c["data"], tuple(c["flips"]), c["enable"]
-            try:
-                r = cache.get(k) or cache.setdefault(k, L.RealEcc(k))
-            except Exception as e:
-                dis.append({"kind": "elaboration", "k": k, "what": "ECCEncoder/ECCDecoder(%d) raised %r" % (k, e)})
-                continue
-            cw = r.encode(d)
-            w = cw
-            for j in flips:
-                w ^= 1 << j
-            out = r.decode(en, w)
-            n_cases += 1
-            m = L.oracle(k, r.n, d, cw, flips, en, out)
-            if m:
-                dis.append({"kind": "monitor", "k": k, "what": m, "data": d, "flips": list(flips), "enable": en,
-                            "codeword": cw, "out": list(out), "corpus": os.path.basename(f)})
-            a = ctx.lean.call_batch(["enc %d %d" % (k, d), "dec %d %d %d" % (k, en, w)])
-            if a[0] != str(cw) or a[1] != "%d %d %d" % out:
-                dis.append({"kind": "correspondence", "k": k, "what": "corpus case", "data": d, "flips": list(flips),
-                            "enable": en, "impl": [cw, list(out)], "model": a, "corpus": os.path.basename(f)})
-    if n_cases:
-        ctx.cov.add_cases("corpus", n_cases, n_cases, exhaustive=False)
-    return dis
+            c = dict(c)
+            c["corpus"] = os.path.basename(f)
+            cases.append(c)
+    return cases
 
 
 def correspond(ctx):
     ctx.rule = ("one case = one call of a geometry helper, or one evaluation of the encoder/decoder netlist compared with "
                 "the Lean model; non-trivial = the decoder raised sec or ded (an error was present)")
-    dis = run_corpus(ctx)
-    dis += geometry(ctx)
-    jobs = netlist_jobs(ctx.tier)
+    dis = geometry(ctx)
+    jobs = netlist_jobs(ctx.tier, ctx.rng)
+    cc = corpus_cases()
+    for k in sorted({c["k"] for c in cc}):       # one job per width (netlist elaboration dominates)
+        job = (L.job_corpus, ([c for c in cc if c["k"] == k],), {})
+        if k >= 100:
+            jobs.insert(0, job)
+        else:
+            jobs.append(job)
     dis += merge(ctx, L.run_pool(ctx.seed, jobs))
+    dis.sort(key=lambda d: (d.get("k") if isinstance(d.get("k"), int) else 0, d.get("kind") != "monitor"))
     for d in dis[:5]:
         ctx.log("DISAGREEMENT", json.dumps(d, default=str)[:300])
     return dis
@@ -149,7 +143,8 @@ def correspond(ctx):
 
 def search(ctx, disagreements, proof_info):
     """Failing-input search on the real code with the model-independent oracle only."""
-    # 1. a monitor (oracle) that already fired during correspondence
+    # 1. a monitor (oracle) that already fired during correspondence (smallest width first)
+    disagreements = sorted(disagreements, key=lambda d: d.get("k") if isinstance(d.get("k"), int) else 1 << 30)
     for d in disagreements:
         if d.get("kind") == "monitor" and "data" in d:
             return {"k": d["k"], "data": d["data"], "flips": d["flips"], "enable": d["enable"],
